@@ -13,6 +13,10 @@ Two ingredients, both for arbitrary policies, role graphs and histories:
   domain (what a matcher containing `r.dom == p.dom` does), a decision depends only on
   the sub-list of this domain's rules, in order, and on the matcher's value on them.
 
+The ingredients are composed at the end of the file (`tenant_isolation`, `tenant_isolation_history`): for a
+matcher AST whose role lookups all name the request's tenant (`DomOnly`), decisions of that tenant are unchanged
+by every history of confined rule calls and of role-link calls made for other tenants.
+
 The hypothesis "both stores non-empty" is forced by the empty-store branch of
 `enforce` (evaluated on the crate on every run; with non-empty request values it
 cannot arise).
@@ -268,5 +272,232 @@ def cfgB : EvalCfg := { cfgA with policy := [["carol", "d2"], ["alice", "d1"], [
 def mAlice : MatchFn := fun rule => some (rule[0]? = some "alice" && rule[1]? = some "d1")
 example : enforceCore cfgA 2 mAlice = enforceCore cfgB 2 mAlice := by decide
 example : cfgA.policy.filter (fun r => r[1]? = some "d1") = cfgB.policy.filter (fun r => r[1]? = some "d1") := by decide
+
+
+/-! ### The ingredients composed: one statement about decisions
+
+A matcher whose every role lookup names the request's tenant (`g(_, _, r.dom)`, no two-place `g`, no
+`eval`) is evaluated identically under two role managers that agree on that tenant's graph; together with
+`decisions_depend_on_view` and the two history invariants (`view_history` for the rules,
+`graph_history_outside` for the links) this gives: *whatever the other tenants do, no decision of this
+tenant changes*. -/
+
+/-- every role lookup of the matcher names the request's tenant, token `di` of the request -/
+inductive DomOnly (di : Nat) : Expr → Prop
+  | lit (a : Atom) : DomOnly di (.lit a)
+  | r (i : Nat) : DomOnly di (.r i)
+  | p (i : Nat) : DomOnly di (.p i)
+  | attr {e : Expr} (f : String) : DomOnly di e → DomOnly di (.attr e f)
+  | cmp (op : CmpOp) {a b : Expr} : DomOnly di a → DomOnly di b → DomOnly di (.cmp op a b)
+  | and {a b : Expr} : DomOnly di a → DomOnly di b → DomOnly di (.and a b)
+  | or {a b : Expr} : DomOnly di a → DomOnly di b → DomOnly di (.or a b)
+  | not {a : Expr} : DomOnly di a → DomOnly di (.not a)
+  | g3 (name : String) {a b : Expr} : DomOnly di a → DomOnly di b → DomOnly di (.g3 name a b (.r di))
+  | call2 (f : String) {a b : Expr} : DomOnly di a → DomOnly di b → DomOnly di (.call2 f a b)
+  | call3 (f : String) {a b c : Expr} : DomOnly di a → DomOnly di b → DomOnly di c → DomOnly di (.call3 f a b c)
+  | unknownVar : DomOnly di .unknownVar
+
+/-- the same surroundings with another role manager -/
+def withRm (env : Env) (rm : RoleMgr String) : Env := { env with rm := rm }
+
+@[simp] theorem withRm_req (env : Env) (rm : RoleMgr String) : (withRm env rm).req = env.req := rfl
+@[simp] theorem withRm_rule (env : Env) (rm : RoleMgr String) : (withRm env rm).rule = env.rule := rfl
+@[simp] theorem withRm_rm (env : Env) (rm : RoleMgr String) : (withRm env rm).rm = rm := rfl
+@[simp] theorem withRm_gfuncs (env : Env) (rm : RoleMgr String) : (withRm env rm).gfuncs = env.gfuncs := rfl
+@[simp] theorem withRm_call (env : Env) (rm : RoleMgr String) : (withRm env rm).call = env.call := rfl
+@[simp] theorem withRm_tbl (env : Env) (rm : RoleMgr String) : (withRm env rm).tbl = env.tbl := rfl
+
+/-- such a matcher sees a role manager only through the links of the request's tenant -/
+theorem eval_rm_congr (di : Nat) (d : String) (env : Env) (rm' : RoleMgr String)
+    (hreq : env.req[di]? = some (.atom (.str d)))
+    (hl : ∀ s t, env.rm.hasLink s t d = rm'.hasLink s t d)
+    (e : Expr) (he : DomOnly di e) (fuel : Nat) :
+    e.eval (withRm env rm') fuel = e.eval env fuel := by
+  induction he with
+  | lit a => simp only [Expr.eval]
+  | r i => simp only [Expr.eval, withRm_req]
+  | p i => simp only [Expr.eval, withRm_rule]
+  | attr f _ ih => simp only [Expr.eval, ih]
+  | cmp op _ _ iha ihb => simp only [Expr.eval, iha, ihb]
+  | and _ _ iha ihb => simp only [Expr.eval, iha, ihb]
+  | or _ _ iha ihb => simp only [Expr.eval, iha, ihb]
+  | not _ ih => simp only [Expr.eval, ih]
+  | @g3 name a b _ _ iha ihb =>
+    simp only [Expr.eval, iha, ihb, withRm_req, withRm_gfuncs, withRm_rm, hreq]
+    cases a.eval env fuel with
+    | none => rfl
+    | some x =>
+      cases b.eval env fuel with
+      | none => rfl
+      | some y =>
+        simp only []
+        by_cases hgf : (name, 3) ∈ env.gfuncs
+        · simp only [hgf, if_true]
+          cases hx : asStr x with
+          | none => rfl
+          | some s =>
+            cases hy : asStr y with
+            | none => rfl
+            | some t => simp only [asStr, hl s t]
+        · simp only [hgf, if_false]
+  | call2 f _ _ iha ihb => simp only [Expr.eval, iha, ihb, withRm_call]
+  | call3 f _ _ _ iha ihb ihc => simp only [Expr.eval, iha, ihb, ihc, withRm_call]
+  | unknownVar => simp only [Expr.eval]
+
+/-- the matcher `ex` as the rule loop calls it, in given surroundings -/
+def matcherOf (ex : Expr) (env : Env) : MatchFn := fun rule => ex.evalBool { env with rule := rule }
+
+theorem matcherOf_rm_congr (di : Nat) (d : String) (env : Env) (rm' : RoleMgr String)
+    (hreq : env.req[di]? = some (.atom (.str d)))
+    (hg : env.rm.graph? d = rm'.graph? d) (hm : env.rm.maxLevel = rm'.maxLevel)
+    (ex : Expr) (he : DomOnly di ex) (rule : Rule) :
+    matcherOf ex (withRm env rm') rule = matcherOf ex env rule := by
+  unfold matcherOf Expr.evalBool
+  have := eval_rm_congr di d { env with rule := rule } rm' hreq
+    (fun s t => (C03.queries_depend_only_on_domain_graph env.rm rm' d hg hm s t).1) ex he 8
+  simp only [withRm] at this ⊢
+  rw [this]
+
+/-- **tenant isolation, decisions**: take a matcher whose role lookups name the request's tenant `d` and which
+rejects every rule outside `d` (`inD`).  Replace the role manager by one that agrees on `d`'s graph — whatever it
+holds for other tenants — and the stored rules by any list with the same `d`-rules in the same order — whatever
+other rules are interleaved.  The decision is the same. -/
+theorem tenant_isolation (c c' : EvalCfg) (reqLen : Nat) (eff : EffExpr) (ex : Expr) (di : Nat) (d : String)
+    (env : Env) (rm' : RoleMgr String)
+    (hdo : DomOnly di ex) (hreq : env.req[di]? = some (.atom (.str d)))
+    (hg : env.rm.graph? d = rm'.graph? d) (hml : env.rm.maxLevel = rm'.maxLevel)
+    (hr : C01.Ready c reqLen eff) (hr' : C01.Ready c' reqLen eff)
+    (htok : c.ptokens = c'.ptokens) (heft : c.eftToken = c'.eftToken)
+    (hne : c.policy ≠ []) (hne' : c'.policy ≠ []) (inD : Rule → Bool)
+    (hview : c.policy.filter inD = c'.policy.filter inD)
+    (hout : ∀ rule, inD rule = false → rule ∈ c.policy ∨ rule ∈ c'.policy →
+      rule.length = c.ptokens.length ∧ matcherOf ex env rule = some false) :
+    enforceCore c reqLen (matcherOf ex env) = enforceCore c' reqLen (matcherOf ex (withRm env rm')) := by
+  apply decisions_depend_on_view c c' reqLen _ _ eff hr hr' htok heft hne hne' inD hview
+  · intro rule _
+    exact (matcherOf_rm_congr di d env rm' hreq hg hml ex hdo rule).symm
+  · intro rule hm hi
+    exact hout rule hi (Or.inl hm)
+  · intro rule hm hi
+    have := hout rule hi (Or.inr hm)
+    rw [matcherOf_rm_congr di d env rm' hreq hg hml ex hdo rule, ← htok]
+    exact this
+
+/-- a role-manager call made for another tenant -/
+def RmOp.Outside (d : String) : RmOp String → Prop
+  | .add _ _ d' => d' ≠ d
+  | .del _ _ d' => d' ≠ d
+  | .clear => False
+
+theorem graph_step_outside (rm : RoleMgr String) (op : RmOp String) (d : String) (h : RmOp.Outside d op) :
+    (rm.apply op).graph? d = rm.graph? d ∧ (rm.apply op).maxLevel = rm.maxLevel := by
+  cases op with
+  | add a b d' =>
+    have hd : d' ≠ d := h
+    simp only [RoleMgr.apply, RoleMgr.addLink]
+    split
+    · exact ⟨rfl, rfl⟩
+    · exact ⟨by rw [graph?_setDom]; simp [hd], rfl⟩
+  | del a b d' =>
+    have hd : d' ≠ d := h
+    simp only [RoleMgr.apply, RoleMgr.deleteLink]
+    split
+    · exact ⟨rfl, rfl⟩
+    · split
+      · exact ⟨rfl, rfl⟩
+      · simp only [Option.getD_some]
+        exact ⟨by rw [graph?_setDom]; simp [hd], trivial⟩
+  | clear => exact absurd h (by simp [RmOp.Outside])
+
+/-- every history of role-manager calls made for other tenants leaves this tenant's graph as it was -/
+theorem graph_history_outside (rm : RoleMgr String) (ops : List (RmOp String)) (d : String)
+    (h : ∀ op ∈ ops, RmOp.Outside d op) :
+    (rm.run ops).graph? d = rm.graph? d ∧ (rm.run ops).maxLevel = rm.maxLevel := by
+  induction ops generalizing rm with
+  | nil => exact ⟨rfl, rfl⟩
+  | cons op rest ih =>
+    have h1 := graph_step_outside rm op d (h op (by simp))
+    have h2 := ih (rm.apply op) (fun o ho => h o (by simp [ho]))
+    simp only [RoleMgr.run, List.foldl_cons] at h2 ⊢
+    exact ⟨h2.1.trans h1.1, h2.2.trans h1.2⟩
+
+/-- **tenant isolation over histories**: after any history of management calls on permission rules that name
+no rule of tenant `d` (`TOp.Confined`) and any history of role-link changes made for other tenants
+(`RmOp.Outside`), every request of tenant `d` is decided as before -/
+theorem tenant_isolation_history (c : EvalCfg) (reqLen : Nat) (eff : EffExpr) (ex : Expr) (di : Nat) (d : String)
+    (env : Env) (s : Store) (pt : String) (ops : List TOp) (rops : List (RmOp String)) (inD : Rule → Bool)
+    (hdo : DomOnly di ex) (hreq : env.req[di]? = some (.atom (.str d)))
+    (hops : ∀ op ∈ ops, op.Confined inD) (hrops : ∀ op ∈ rops, RmOp.Outside d op)
+    (hr : C01.Ready { c with policy := s.getPolicy "p" pt } reqLen eff)
+    (hr' : C01.Ready { c with policy := (ops.foldl TOp.apply s).getPolicy "p" pt } reqLen eff)
+    (hne : s.getPolicy "p" pt ≠ []) (hne' : (ops.foldl TOp.apply s).getPolicy "p" pt ≠ [])
+    (hout : ∀ rule, inD rule = false → rule ∈ s.getPolicy "p" pt ∨ rule ∈ (ops.foldl TOp.apply s).getPolicy "p" pt →
+      rule.length = c.ptokens.length ∧ matcherOf ex env rule = some false) :
+    enforceCore { c with policy := s.getPolicy "p" pt } reqLen (matcherOf ex env) =
+    enforceCore { c with policy := (ops.foldl TOp.apply s).getPolicy "p" pt } reqLen
+      (matcherOf ex (withRm env (env.rm.run rops))) := by
+  have hgr := graph_history_outside env.rm rops d hrops
+  exact tenant_isolation _ _ reqLen eff ex di d env (env.rm.run rops) hdo hreq hgr.1.symm hgr.2.symm hr hr' rfl rfl
+    hne hne' inD (view_history inD ops s hops pt).symm hout
+
+/-! #### non-vacuity: the domain matcher of `rbac_with_domains_model.conf` -/
+
+/-- `g(r.sub, p.sub, r.dom) && r.dom == p.dom && r.obj == p.obj` -/
+def domMatcher : Expr :=
+  .and (.and (.g3 "g" (.r 0) (.p 0) (.r 1)) (.cmp .eq (.r 1) (.p 1))) (.cmp .eq (.r 2) (.p 2))
+
+theorem domMatcher_domOnly : DomOnly 1 domMatcher :=
+  .and (.and (.g3 "g" (.r 0) (.p 0)) (.cmp .eq (.r 1) (.p 1))) (.cmp .eq (.r 2) (.p 2))
+
+def demoEnv : Env :=
+  { req := [.atom (.str "alice"), .atom (.str "d1"), .atom (.str "data1")], rule := [],
+    rm := (RoleMgr.new 10).addLink "alice" "admin" "d1", gfuncs := [("g", 3)],
+    call := fun _ _ => none, tbl := fun _ => none }
+
+def cfgD : EvalCfg :=
+  { enabled := true, sectionsOk := true, rtokens := 3, ptokens := ["p_sub", "p_dom", "p_obj"],
+    effExpr := some .allowOverride, eftToken := "p_eft", compiles := true,
+    policy := [["admin", "d1", "data1"], ["bob", "d2", "data2"]] }
+def cfgD' : EvalCfg := { cfgD with policy := [["carol", "d2", "data1"], ["admin", "d1", "data1"]] }
+
+theorem demo_link : demoEnv.rm.hasLink "alice" "admin" "d1" = true := by decide +kernel
+
+/-- the matcher on the three rules of the example -/
+theorem demo_matcher_vals :
+    matcherOf domMatcher demoEnv ["admin", "d1", "data1"] = some true ∧
+    matcherOf domMatcher demoEnv ["bob", "d2", "data2"] = some false ∧
+    matcherOf domMatcher demoEnv ["carol", "d2", "data1"] = some false := by
+  refine ⟨?_, ?_, ?_⟩
+  · have := demo_link
+    simp only [demoEnv] at this
+    simp [matcherOf, domMatcher, Expr.evalBool, Expr.eval, asStr, cmpVal, cmpStr, demoEnv, this]
+  · exact domain_guard_rejects _ _ _ 1 1 "d1" "d2" (demoEnv.rm.hasLink "alice" "bob" "d1")
+      (by simp [Expr.eval, asStr, demoEnv]) rfl rfl (by decide)
+  · exact domain_guard_rejects _ _ _ 1 1 "d1" "d2" (demoEnv.rm.hasLink "alice" "carol" "d1")
+      (by simp [Expr.eval, asStr, demoEnv]) rfl rfl (by decide)
+
+/-- the hypotheses of `tenant_isolation` are met by a concrete two-tenant configuration: another tenant's rules
+differ, and the other tenant gained a link; alice@d1 is granted either way -/
+example :
+    enforceCore cfgD 3 (matcherOf domMatcher demoEnv) =
+      enforceCore cfgD' 3 (matcherOf domMatcher (withRm demoEnv (demoEnv.rm.addLink "bob" "admin" "d2"))) := by
+  apply tenant_isolation cfgD cfgD' 3 .allowOverride domMatcher 1 "d1" demoEnv _ domMatcher_domOnly rfl
+    (graph_step_outside demoEnv.rm (.add "bob" "admin" "d2") "d1" (by simp [RmOp.Outside])).1.symm
+    (graph_step_outside demoEnv.rm (.add "bob" "admin" "d2") "d1" (by simp [RmOp.Outside])).2.symm
+    ⟨rfl, rfl, rfl, rfl, rfl⟩ ⟨rfl, rfl, rfl, rfl, rfl⟩ rfl rfl (by decide) (by decide)
+    (fun r => decide (r[1]? = some "d1")) (by decide)
+  intro rule hi hm
+  simp only [cfgD, cfgD', List.mem_cons, List.not_mem_nil, or_false] at hm
+  rcases hm with (rfl | rfl) | (rfl | rfl)
+  · exact absurd hi (by decide)
+  · exact ⟨rfl, demo_matcher_vals.2.1⟩
+  · exact ⟨rfl, demo_matcher_vals.2.2⟩
+  · exact absurd hi (by decide)
+
+/-- … and the request is one that is granted (through the role), so the equality is not between two refusals -/
+example : enforceCore cfgD 3 (matcherOf domMatcher demoEnv) = .ok true := by
+  rw [C01.enforce_eq_reference cfgD 3 _ .allowOverride ⟨rfl, rfl, rfl, rfl, rfl⟩ (by decide)]
+  simp [cfgD, ruleOutcome, demo_matcher_vals.1, demo_matcher_vals.2.1]
+  decide
 
 end Casbin.C07
